@@ -3,7 +3,7 @@ import json
 from fractions import Fraction
 import numpy as np
 from harness import votelib as V, eliclib as E
-from harness.common import pmap, lean_query, guard, fr
+from harness.common import pmap, lean_query, guard, fr, safe_judge
 from harness.c01 import chunks
 
 LEVEL = "proof"
@@ -31,6 +31,7 @@ def close(a, b):
     return abs(a - b) <= REL * max(1, abs(a), abs(b))
 
 
+@safe_judge
 def judge(R, it, res, lean):
     P, vals, k = it["P"], it["vals"], it["k"]
     n, m = len(P), len(P[0])
